@@ -51,6 +51,8 @@ def run_seed(sid, checks, tier="quick"):
                 rc = 2          # exit 1 without a VIOLATION line is a crash of the engine, not a verdict
             res["runs"][c] = {"exit": rc, "violations": keys[:12], "n_violations": len(keys),
                               "broken": [l for l in q.stdout.splitlines() if l.startswith("ANALYSIS-BROKEN")][:2]}
+            if rc == 2 and "Traceback" in q.stdout:
+                res["runs"][c]["traceback"] = q.stdout[q.stdout.index("Traceback"):][:3000]
     finally:
         shutil.rmtree(tmp, ignore_errors=True)
         # the scratch tree's facts cache is of no further use
